@@ -29,6 +29,9 @@ def TyWF : Ty → Bool
   | .pattern ps => decide (ps.length ≤ 9223372036854775807)
   | .strVal v => !v.isEmpty                    -- `NewStringType`: an empty value is the default String
   | .semverT _ rs => rs.all arOk               -- versions as `NewVersion3` makes them (and `semver.Min`)
+  | .hash k v lo hi => (TyWF k && TyWF v) && ((minInt ≤ lo && lo ≤ maxInt) && (minInt ≤ hi && hi ≤ maxInt))
+  | .like b _ => TyWF b
+  | .callable ts => ts.isNone                  -- `Callable[…]` with parameters is outside: known finding C07-callable-all-equal
   | _ => true
 def TyWFL : List Ty → Bool
   | [] => true
@@ -100,6 +103,16 @@ theorem tyEq_eq_R : ∀ a b : Ty, tyEq a b = tyEqR a b
       ac_rfl
   | .tref s, b => by cases b <;> simp [tyEq, tyEqR, beq_swap s]
   | .semverT _ rs, b => by cases b <;> simp [tyEq, tyEqR, rangesEq_comm rs]
+  | .hash k v lo hi, b => by
+      cases b <;> simp only [tyEq, tyEqR]
+      rename_i k' v' lo' hi'
+      rw [tyEq_eq_R k k', tyEq_eq_R v v', beq_swap lo lo', beq_swap hi hi']
+  | .like t n, b => by
+      cases b <;> simp only [tyEq, tyEqR]
+      rename_i t' n'
+      rw [tyEq_eq_R t t', beq_swap n n']
+  | .callable _, b => by cases b <;> simp [tyEq, tyEqR]
+  | .runtime rt n p, b => by cases b <;> simp [tyEq, tyEqR, beq_swap rt, beq_swap n, beq_swap p]
 theorem tyEqL_eq_R : ∀ ts us : List Ty, tyEqL ts us = tyEqRL ts us
   | [], _ => by simp [tyEqL, tyEqRL]
   | t :: ts, us => by
@@ -150,6 +163,14 @@ theorem tyEqR_swap : ∀ a b : Ty, tyEqR a b = tyEq b a
   | .pattern ps, b => by cases b <;> simp [tyEq, tyEqR]
   | .tref s, b => by cases b <;> simp [tyEq, tyEqR]
   | .semverT _ rs, b => by cases b <;> simp [tyEq, tyEqR]
+  | .hash k v lo hi, b => by
+      cases b <;> simp only [tyEq, tyEqR]
+      rw [tyEqR_swap k _, tyEqR_swap v _]
+  | .like t n, b => by
+      cases b <;> simp only [tyEq, tyEqR]
+      rw [tyEqR_swap t _]
+  | .callable _, b => by cases b <;> simp [tyEq, tyEqR]
+  | .runtime rt n p, b => by cases b <;> simp [tyEq, tyEqR]
 theorem tyEqRL_swap : ∀ ts us : List Ty, ts.length = us.length → tyEqRL ts us = tyEqL us ts
   | [], us => fun h => by
       cases us with
@@ -249,6 +270,12 @@ theorem tyEq_refl : ∀ a : Ty, TyWF a = true → tyEq a a = true
   | .pattern _, _ => by simp [tyEq, containsAll_refl]
   | .tref _, _ => by simp [tyEq]
   | .semverT _ _, _ => by simp [tyEq, rangesEq_iff]
+  | .hash k v _ _, h => by
+      simp only [TyWF, Bool.and_eq_true] at h
+      simp [tyEq, tyEq_refl k h.1.1, tyEq_refl v h.1.2]
+  | .like t _, h => by simp only [TyWF] at h; simp [tyEq, tyEq_refl t h]
+  | .callable _, _ => by simp [tyEq]
+  | .runtime _ _ _, _ => by simp [tyEq]
 theorem tyEq_refl_all : ∀ ts : List Ty, TyWFL ts = true → ∀ v ∈ ts, tyEq v v = true
   | [], _ => by simp
   | t :: ts, h => by
@@ -365,6 +392,22 @@ theorem tyEq_trans : ∀ a b c : Ty, tyEq a b = true → tyEq b c = true → tyE
       cases b <;> (try (intro h; simp [tyEq] at h; done))
       cases c <;> simp [tyEq, rangesEq_iff]
       intro h1 h2; exact h1.trans h2
+  | .hash k v _ _, b, c => by
+      cases b <;> (try (intro h; simp [tyEq] at h; done))
+      cases c <;> simp [tyEq]
+      intro h1 h2 h3 h4 h5 h6 h7 h8
+      exact ⟨⟨⟨h1.trans h5, h2.trans h6⟩, tyEq_trans k _ _ h3 h7⟩, tyEq_trans v _ _ h4 h8⟩
+  | .like t _, b, c => by
+      cases b <;> (try (intro h; simp [tyEq] at h; done))
+      cases c <;> simp [tyEq]
+      intro h1 h2 h3 h4; exact ⟨h1.trans h3, tyEq_trans t _ _ h2 h4⟩
+  | .callable _, b, c => by
+      cases b <;> (try (intro h; simp [tyEq] at h; done))
+      cases c <;> simp [tyEq]
+  | .runtime _ _ _, b, c => by
+      cases b <;> (try (intro h; simp [tyEq] at h; done))
+      cases c <;> simp [tyEq]
+      intro h1 h2 h3 h4 h5 h6; exact ⟨⟨h1.trans h4, h2.trans h5⟩, h3.trans h6⟩
 theorem tyEq_trans_all : ∀ ts : List Ty, ∀ v ∈ ts, ∀ b c : Ty, tyEq v b = true → tyEq b c = true → tyEq v c = true
   | [], _, h => by simp at h
   | t :: ts, v, hv => by
